@@ -42,15 +42,8 @@ type PackSeqOut struct {
 }
 
 func runPackStep(W string, st PackStep) string {
-	// re-materialise the tree at the SAME path every time
-	ents, _ := os.ReadDir(W)
-	for _, e := range ents {
-		core.RemoveArena(filepath.Join(W, e.Name()))
-	}
-	os.MkdirAll(filepath.Join(W, "src"), 0755)
-	os.MkdirAll(filepath.Join(W, "x"), 0755)
-	if err := BuildTree(W, st.Nodes); err != nil {
-		return "SETUP-ERROR " + err.Error()
+	if e := prepPackStep(W, st); e != "" {
+		return e
 	}
 	if st.Unpack {
 		data, _ := tarx.Build([]tarx.Entry{{Name: "u/", Kind: "dir"}, {Name: "u/f", Kind: "reg", Body: "x"}, {Name: "u/l", Kind: "link", Target: "f"}}, 0)
@@ -69,6 +62,25 @@ func runPackStep(W string, st PackStep) string {
 		return "SETUP-ERROR chdir " + err.Error()
 	}
 	defer os.Chdir("/")
+	return packOnly(W, st)
+}
+
+// prepPackStep re-materialises the step's tree at W (the SAME path every time).
+func prepPackStep(W string, st PackStep) string {
+	ents, _ := os.ReadDir(W)
+	for _, e := range ents {
+		core.RemoveArena(filepath.Join(W, e.Name()))
+	}
+	os.MkdirAll(filepath.Join(W, "src"), 0755)
+	os.MkdirAll(filepath.Join(W, "x"), 0755)
+	if err := BuildTree(W, st.Nodes); err != nil {
+		return "SETUP-ERROR " + err.Error()
+	}
+	return ""
+}
+
+// packOnly runs the Pack call of a step and renders its output canonically.
+func packOnly(W string, st PackStep) string {
 	src := filepath.Join(W, "src")
 	if st.Src != "" {
 		src = strings.ReplaceAll(st.Src, "<W>", W)
